@@ -158,8 +158,12 @@ class Local(Monitor):
                 return
             exp_s, exp_d = info['exp']
             rs, rd = out.new_entries[0].view, out.new_entries[1].view
-            for tag, exp, rview, wells, plate_i in (('src', exp_s, rs, rt.src, rt.src_plate),
-                                                     ('dst', exp_d, rd, rt.dst, rt.dst_plate)):
+            judged = [('src', exp_s, rs, rt.src, rt.src_plate), ('dst', exp_d, rd, rt.dst, rt.dst_plate)]
+            if rt.same_plate and rs['k'] == 'p' and rd['k'] == 'p':
+                # one plate is both source and destination: each of the two results is that plate after the transfer,
+                # so the drained source wells show on the "destination" result and the filled wells on the "source" one
+                judged += [('src-result-dst', exp_d, rs, rt.dst, rt.dst_plate), ('dst-result-src', exp_s, rd, rt.src, rt.src_plate)]
+            for tag, exp, rview, wells, plate_i in judged:
                 if rview['k'] == 'c':
                     if not same_container(world, exp[0], rview):
                         col.report(f"transfer/{rt.form}/{rt.fam}/{tag}-container-differs",
